@@ -581,7 +581,7 @@ def main(argv=None):
         unknown=agg['unknown'], unconfirmed_counterexamples=unconfirmed, duplicate_counterexamples_not_replayed=duplicates, abstract_counterexample_realisation=realise_info, float64_probe_inputs_replayed_ok=probes_ok, unconfirmed_samples=unconfirmed_samples,
         not_encodable_paths=len(notenc), not_encodable_samples=sorted(set(notenc))[:5],
         path_outcomes=outcomes, structural_cases_enumerated=total_cases, infeasible_paths_pruned=agg['infeasible'], branch_feasibility_unknown_explored_both=agg['decide_unknown'], structural_cases=len(cases), cases_skipped_budget=skipped,
-        cases_truncated=truncated, validation_mismatch=mism, validation_mismatch_samples=mismatch_samples, validation_skipped=vskip,
+        cases_truncated=truncated, truncated_cases=[r['case'] for r in results if r.get('truncated')][:12], validation_mismatch=mism, validation_mismatch_samples=mismatch_samples, validation_skipped=vskip,
         solver=dict(engine='z3 %s (python API)' % core.z3.get_version_string(), queries=agg['queries'], linear_abstraction_unsat=agg['lin_unsat'],
                     nra_queries=agg['nra_queries'], solver_s=round(agg['solver_s'], 2), per_query_timeout_ms=cfg['qtimeout_ms']),
         functions_encoded=getattr(hm, 'FUNCTIONS', []), bounds=getattr(hm, 'BOUNDS', {}).get(a.tier, getattr(hm, 'BOUNDS', {})),
